@@ -132,7 +132,7 @@ def gen_case(rng: random.Random, op: str, constraint: Any = "random") -> OpCase:
         return OpCase(op, {"normalized_shape": norm_shape, "eps": rng.choice([1e-5, 1e-5, 1e-3, 1e-8])}, shapes, diff)
     if op == "add":
         shape = tuple(_distinct_primes(rng, rng.randint(1, 4)))
-        mode = rng.choice(["same", "same", "size1", "missing", "scalar_tensor", "number"])
+        mode = rng.choice(["same", "same", "size1", "missing", "missing+size1", "scalar_tensor", "number"])
         other: Any
         if mode == "same":
             other = shape
@@ -140,6 +140,10 @@ def gen_case(rng: random.Random, op: str, constraint: Any = "random") -> OpCase:
             other = tuple(1 if rng.random() < 0.5 else d for d in shape)
         elif mode == "missing":
             other = shape[rng.randint(1, len(shape)):] if len(shape) > 1 else shape
+        elif mode == "missing+size1":
+            tail = shape[rng.randint(1, len(shape)):] if len(shape) > 1 else shape
+            other = tuple(1 if (i % 2 == 0 or rng.random() < 0.5) else d for i, d in enumerate(tail)) if len(tail) > 1 \
+                else ((1,) if len(shape) > 1 else shape)
         elif mode == "scalar_tensor":
             other = rng.choice([(), (1,), (1,) * len(shape)])
         else:
@@ -357,8 +361,23 @@ class Measurement:
     in_rms: float = 1.0
 
 
+def warm_up(U: Any, case: OpCase, seed: int) -> None:
+    """Run the same configuration in lower precisions first (forward + backward): nothing a call leaves behind
+    (caches keyed on scale values, saved tensors) may leak into a later call in another dtype."""
+    for dt in (torch.bfloat16, torch.float32):
+        try:
+            t = _req(make_inputs(case, seed, dt), case)
+            y = call_impl(U, case, t, 7)
+            if case.diff:
+                torch.autograd.grad(y.float().sum(), [t[n] for n in case.diff], allow_unused=True)
+        except Exception:
+            pass
+
+
 def measure(U: Any, case: OpCase, data_seed: int, up_seed: int, dtype: torch.dtype = torch.float64,
-            sum_losses_for_grad: bool = True, want_grads: bool = True) -> Measurement:
+            sum_losses_for_grad: bool = True, want_grads: bool = True, warm: bool = False) -> Measurement:
+    if warm:
+        warm_up(U, case, data_seed)
     base = make_inputs(case, data_seed, dtype)
     ti, tr = _req(base, case), _req(base, case)
     snap = {k: (v.detach().clone(), v._version) for k, v in ti.items() if isinstance(v, torch.Tensor)}
